@@ -4,6 +4,7 @@ CONSTANTS
   Huge = 1000
   Gran = 8
   Slack = 12
+  DirectMap = 1000
   EnvK = 2
   EnvC = 16
   Ids = {1, 2}
